@@ -108,7 +108,12 @@ impl FeelNumber {
   }
   ///
   pub fn even(&self) -> bool {
-    dec_is_zero(&dec_remainder(&self.0, &DEC_TWO))
+    if !self.is_integer() {
+      return false;
+    }
+    // no remainder is available (NaN) when the quotient needs more than 34 digits: such an integer is a multiple of ten
+    let remainder = dec_remainder(&self.0, &DEC_TWO);
+    !dec_is_finite(&remainder) || dec_is_zero(&remainder)
   }
   ///
   pub fn exp(&self) -> Self {
@@ -150,7 +155,7 @@ impl FeelNumber {
   }
   ///
   pub fn odd(&self) -> bool {
-    dec_is_integer(&self.0) && !dec_is_zero(&dec_remainder(&self.0, &DEC_TWO))
+    self.is_integer() && !self.even()
   }
   ///
   pub fn pow(&self, rhs: &FeelNumber) -> Option<Self> {
